@@ -176,6 +176,36 @@ CHECKS["C11"] = dict(
     technique="TLA+ model checking (TLC) + fault-injection replay + TLC trace validation",
     design="6/C11")
 
+CHECKS["C07"] = dict(
+    level="exploration",
+    text="Hostile.tla enumerates every combination of relations between header-declared quantities and the actual file for each container "
+         "parser (104k combinations) and proves the file-driven track-list walk terminates; Cli.tla enumerates 317k option/command "
+         "sequences with the required outcome alphabet; sampled combinations, command lines and seeded byte-level havoc of valid images "
+         "of every container are run through the ASan+UBSan build (libstdc++ assertions on) with a peak-memory measurement on the pinned "
+         "build, and TraceCli.tla judges the outcome alphabet (return 0/1/2, diagnostic when non-zero, no signal/sanitizer/timeout, "
+         "allocation bound).",
+    note="Memory safety and UB are observed by sanitizers, not decided by TLC; quick samples the enumerations, thorough runs ten times more.",
+    technique="TLC-enumerated hostile inputs and command lines + sanitizer replay + TLC trace validation",
+    design="6/C07")
+CHECKS["C18"] = dict(
+    level="exploration",
+    text="Cli.tla states the non-interference property (the outcome is a function of the command line with --verbose/--show-config removed) "
+         "and TLC checks it over all option sequences; a corpus of sessions over valid, hostile and flux images is re-run with each "
+         "diagnostic option at each position, with every --ui style and on a pseudo-terminal with COLUMNS 20/40/80; TraceDiff.tla judges "
+         "byte-equality of stdout and exit status, and for cat equality of projected content; every session is also run twice.",
+    note="Differential (2-run) exploration; stderr is not compared.",
+    technique="TLA+ model checking of the non-interference statement + differential replay + TLC trace validation",
+    design="6/C18")
+CHECKS["C19"] = dict(
+    level="exploration",
+    text="The NDEBUG build and the assertion build of the working tree replay the same sessions (all containers and commands, hostile "
+         "header combinations from Hostile.tla, BASIC programs in all dialect names and with no --dialect); TraceDiff.tla judges equality "
+         "of stdout and exit status, excusing runs the assertion build stops on a failed assertion; a source scan lists every assert() "
+         "whose argument calls a function or assigns.",
+    note="Differential exploration over a finite corpus.",
+    technique="differential replay on two builds + TLC trace validation",
+    design="6/C19")
+
 PENDING_REASON = "check not built yet in this session (work in progress; design in DESIGN.md section 6)"
 
 
